@@ -35,6 +35,7 @@ type MuxTrack struct {
 	Stss      bool
 	Sdtp      bool
 	Edts      bool
+	Uniform   bool // all samples have one size and stsz uses the uniform form (sample_size != 0, no table)
 }
 
 // MuxSpec is a whole file.
@@ -213,7 +214,11 @@ func Mux(s *MuxSpec) ([]byte, error) {
 			for _, sm := range tr.Samples {
 				sz = append(sz, be32(uint32(len(sm.Data)))...)
 			}
-			stbl = append(stbl, fullbox("stsz", 0, 0, cat(be32(0), be32(uint32(len(tr.Samples))), sz))...)
+			if tr.Uniform && len(tr.Samples) > 0 {
+				stbl = append(stbl, fullbox("stsz", 0, 0, cat(be32(uint32(len(tr.Samples[0].Data))), be32(uint32(len(tr.Samples)))))...)
+			} else {
+				stbl = append(stbl, fullbox("stsz", 0, 0, cat(be32(0), be32(uint32(len(tr.Samples))), sz))...)
+			}
 			// chunk offsets
 			var co []byte
 			for ci := range tr.Chunks {
@@ -319,6 +324,8 @@ func DrawMuxSpecOpt(t *sim.Tape, av bool) (*MuxSpec, error) {
 			tr.Timescale = []uint32{48000, 44100, 22050}[t.Draw(3)]
 		}
 		tr.Edts = t.Chance(300)
+		tr.Uniform = t.Chance(200)
+		uniSize := 1 + t.Draw(48)
 		var err error
 		if tr.Stsd, err = StsdFor(tr.Handler); err != nil {
 			return nil, err
@@ -341,6 +348,9 @@ func DrawMuxSpecOpt(t *sim.Tape, av bool) (*MuxSpec, error) {
 				}
 			}
 			sm.Data = make([]byte, 1+t.Draw(48))
+			if tr.Uniform {
+				sm.Data = make([]byte, uniSize)
+			}
 			rnd.Fill(sm.Data)
 			tr.Samples = append(tr.Samples, sm)
 		}
